@@ -180,6 +180,261 @@ def elementary_gates(rng):
     return one, two
 
 
+# ----------------------------------------------------------------------------- memory layouts and derivations
+LAYOUTS = ["C", "F", "T-view-of-C", "strided-view", "negative-stride", "complex64", "float64"]
+DERIVES = ["plain", "inverse", "copy", "inverse-inverse", "ctrl[1]", "ctrl[0]", "mux", "ctrl-of-inverse"]
+
+
+def signed_perm(rng, n):
+    """real monomial unitary (entries +-1), not symmetric under reversing the wire order for n >= 2"""
+    d = 2 ** n
+    perm = list(range(d))
+    rng.shuffle(perm)
+    m = np.zeros((d, d))
+    for r, c in enumerate(perm):
+        m[r, c] = rng.choice([1.0, -1.0])
+    return m
+
+
+def lay_out(U, layout):
+    """the same matrix, stored differently (np.array_equal(result, U) holds for every layout)"""
+    U = np.asarray(U)
+    if layout == "C":
+        return np.ascontiguousarray(U)
+    if layout == "F":
+        return np.asfortranarray(U)
+    if layout == "T-view-of-C":
+        return np.ascontiguousarray(U.T).T
+    if layout == "strided-view":
+        big = np.zeros((2 * U.shape[0], 2 * U.shape[1]), dtype=U.dtype)
+        big[::2, ::2] = U
+        return big[::2, ::2]
+    if layout == "negative-stride":
+        return np.ascontiguousarray(U[::-1, :])[::-1, :]
+    if layout == "complex64":
+        return U.astype(np.complex64)
+    if layout == "float64":
+        return np.ascontiguousarray(U.real.astype(np.float64))
+    raise ValueError(layout)
+
+
+def derive_gate(V, n, derive):
+    """a gate (and its number of wires) obtained from GeneralGate(V, n) through the public API"""
+    import qib, copy
+    g = qib.GeneralGate(V, n)
+    if derive == "plain":
+        return g, n
+    if derive == "inverse":
+        return g.inverse(), n
+    if derive == "copy":
+        g.on(qubits(n))          # (GeneralGate.__copy__ of a gate without particles raises: outside this property)
+        return copy.copy(g), n
+    if derive == "inverse-inverse":
+        return g.inverse().inverse(), n
+    if derive == "ctrl[1]":
+        return qib.ControlledGate(g, 1, [1]), n + 1
+    if derive == "ctrl[0]":
+        return qib.ControlledGate(g, 1, [0]), n + 1
+    if derive == "ctrl-of-inverse":
+        return qib.ControlledGate(g.inverse(), 2, [0, 1]), n + 2
+    if derive == "mux":
+        return qib.MultiplexedGate([g, g.inverse()], 1), n + 1
+    raise ValueError(derive)
+
+
+def expected_of(U, n, derive):
+    """the matrix the derived gate must have, computed from U alone (independent of as_matrix)"""
+    U = np.asarray(U, dtype=complex)
+    Ud = U.conj().T
+    d = 2 ** n
+    I = np.identity(d)
+    Z = np.zeros((d, d))
+    if derive in ("plain", "copy", "inverse-inverse"):
+        return U
+    if derive == "inverse":
+        return Ud
+    if derive == "ctrl[1]":
+        return np.block([[I, Z], [Z, U]])
+    if derive == "ctrl[0]":
+        return np.block([[U, Z], [Z, I]])
+    if derive == "mux":
+        return np.block([[U, Z], [Z, Ud]])
+    if derive == "ctrl-of-inverse":          # controls (0,1): active on control bits 01
+        blocks = [I, Ud, I, I]
+        out = np.zeros((4 * d, 4 * d), dtype=complex)
+        for k, b in enumerate(blocks):
+            out[k * d:(k + 1) * d, k * d:(k + 1) * d] = b
+        return out
+    raise ValueError(derive)
+
+
+def layout_case(ctx, U, n, layout, derive):
+    desc = {"kind": "layout", "nwires": n, "mat": mat_desc(U), "layout": layout, "derive": derive}
+    V = lay_out(U, layout)
+    if not np.array_equal(V, U):
+        ctx.fail("generator:layout-changes-the-matrix", desc, "equal", "differs")
+        return
+    try:
+        gate, w = derive_gate(V, n, derive)
+    except Exception as e:
+        ctx.fail("layout:gate-construction-raises:" + type(e).__name__, desc, "a gate", repr(e))
+        return
+    want = expected_of(U, n, derive)
+    am = np.asarray(gate.as_matrix())
+    if am.shape != want.shape or not np.allclose(am, want, rtol=0, atol=1e-6):
+        ctx.fail("layout:as_matrix-differs-from-definition", desc, "definition", "differs")
+    oracle_gate(ctx, "layout", desc, gate, w)
+    ctx.count("layout_%s" % layout)
+    ctx.count("derive_%s" % derive)
+
+
+def layout_sweep(ctx):
+    rng = ctx.rng
+    for n in (1, 2, 3):
+        mats = [("monomial", monomial(rng, n)), ("signed-perm", signed_perm(rng, n))]
+        if ctx.thorough:
+            mats.append(("monomial", monomial(rng, n)))
+        for mname, U in mats:
+            for layout in LAYOUTS:
+                if layout == "float64" and np.iscomplexobj(U) and np.abs(np.asarray(U).imag).max() > 0:
+                    continue
+                for derive in DERIVES:
+                    if n == 3 and derive == "ctrl-of-inverse" and not ctx.thorough:
+                        continue
+                    layout_case(ctx, U, n, layout, derive)
+
+
+# ----------------------------------------------------------------------------- histories
+def net_snapshot(net):
+    return ([(k, t.tid, tuple(t.shape), tuple(t.bids), t.dataref) for k, t in net.net.tensors.items()],
+            [(k, b.bid, tuple(b.tids)) for k, b in net.net.bonds.items()],
+            {k: np.array(v, copy=True) for k, v in net.data.items()})
+
+
+def net_unchanged(net, snap):
+    cur = net_snapshot(net)
+    return cur[0] == snap[0] and cur[1] == snap[1] and set(cur[2]) == set(snap[2]) \
+        and all(np.array_equal(cur[2][k], snap[2][k]) for k in snap[2])
+
+
+def history_cases(rng):
+    """name -> (build, number of wires, [(step, mutate(gate) -> array written in place or None)]).
+    Every step changes the gate through attributes the classes expose; after each step the network
+    requested THEN must be the matrix reported THEN."""
+    import qib
+    q = qubits(6)
+    th = lambda: round(rng.uniform(-3, 3), 3)
+    U2 = [monomial(rng, 2) for _ in range(3)]
+    out = {}
+
+    def setter(attr, val):
+        def f(g):
+            setattr(g, attr, val() if callable(val) else val)
+        return f
+
+    for name, cls in (("RxGate", qib.RxGate), ("RyGate", qib.RyGate), ("RzGate", qib.RzGate)):
+        out[name] = (lambda cls=cls: cls(th(), q[0]), 1,
+                     [("set-theta", setter("theta", th)), ("rebind", lambda g: g.on(q[2]) and None), ("set-theta-again", setter("theta", th))])
+    out["RotationGate"] = (lambda: qib.RotationGate([th(), th(), th()], q[0]), 1,
+                           [("assign-ntheta", setter("ntheta", lambda: np.array([th(), th(), th()]))),
+                            ("write-ntheta-in-place", lambda g: (g.ntheta.__setitem__(0, g.ntheta[0] + 0.5), g.ntheta)[1])])
+    out["PhaseFactorGate"] = (lambda: qib.PhaseFactorGate(th(), 2), 2,
+                              [("set-phi", setter("phi", th)), ("rebind", lambda g: g.on([q[0], q[3]]) and None), ("set-phi-again", setter("phi", th))])
+    out["GeneralGate"] = (lambda: qib.GeneralGate(U2[0].copy(), 2), 2,
+                          [("assign-mat-fortran", setter("mat", np.asfortranarray(U2[1]))),
+                           ("assign-mat-transposed-view", setter("mat", np.ascontiguousarray(U2[2].T).T)),
+                           ("rebind", lambda g: g.on([q[1], q[0]]) and None),
+                           ("write-mat-in-place", lambda g: (g.mat.__setitem__(Ellipsis, U2[0]), g.mat)[1])])
+    out["ControlledGate"] = (lambda: qib.ControlledGate(qib.RyGate(th()), 2, [1, 0]), 3,
+                             [("set-target-theta", lambda g: setattr(g.tgate, "theta", th())),
+                              ("set-ctrl_state", setter("ctrl_state", [0, 0])),
+                              ("replace-target", setter("tgate", lambda: qib.GeneralGate(np.asfortranarray(monomial(rng, 1)), 1))),
+                              ("set-ctrl_state-again", setter("ctrl_state", [0, 1]))])
+    out["ControlledGate(GeneralGate2)"] = (lambda: qib.ControlledGate(qib.GeneralGate(U2[0].copy(), 2), 1, [1]), 3,
+                                           [("assign-target-mat-fortran", lambda g: setattr(g.tgate, "mat", np.asfortranarray(U2[1]))),
+                                            ("replace-target-by-its-inverse", lambda g: setattr(g, "tgate", g.tgate.inverse()))])
+    out["MultiplexedGate"] = (lambda: qib.MultiplexedGate([qib.RxGate(th()), qib.RzGate(th())], 1), 2,
+                              [("set-target-theta", lambda g: setattr(g.tgates[0], "theta", th())),
+                               ("replace-target", lambda g: g.tgates.__setitem__(1, qib.GeneralGate(monomial(rng, 1), 1)))])
+
+    def mk_tevo_fermi():
+        latt = qib.lattice.IntegerLattice((2,), pbc=False)
+        fld = qib.field.Field(qib.field.ParticleType.FERMION, latt)
+        co = np.array([[0.3, 0.2 - 0.5j], [0.2 + 0.5j, -0.7]])
+        term = qib.operator.FieldOperatorTerm([qib.operator.IFODesc(fld, qib.operator.IFOType.FERMI_CREATE),
+                                               qib.operator.IFODesc(fld, qib.operator.IFOType.FERMI_ANNIHIL)], co)
+        return qib.TimeEvolutionGate(qib.FieldOperator([term]), 0.7)
+
+    def mk_tevo_heis():
+        latt = qib.lattice.IntegerLattice((3,), pbc=True)
+        fld = qib.field.Field(qib.field.ParticleType.QUBIT, latt)
+        return qib.TimeEvolutionGate(qib.operator.HeisenbergHamiltonian(fld, [0.3, -0.8, 0.5], [0.2, 0.1, -0.4]), 0.6)
+
+    def scale_coeffs(g):
+        c = g.h.terms[0].coeffs
+        c *= 0.5
+        return c
+
+    def heis_params(g):
+        g.h.J = type(g.h.J)(x / 1.7 for x in g.h.J) if isinstance(g.h.J, (list, tuple)) else g.h.J / 1.7
+        g.h.h = type(g.h.h)(x / 1.7 for x in g.h.h) if isinstance(g.h.h, (list, tuple)) else g.h.h / 1.7
+
+    def assign_h_fermi(g):
+        g.h = mk_tevo_fermi().h
+        scale_coeffs(g)
+
+    out["TimeEvolutionGate(FieldOperator)"] = (mk_tevo_fermi, 2,
+                                               [("set-t", setter("t", 0.4)), ("scale-coefficients-in-place", scale_coeffs),
+                                                ("assign-h", assign_h_fermi),
+                                                ("set-t-back", setter("t", 0.7))])
+    out["TimeEvolutionGate(Heisenberg)"] = (mk_tevo_heis, 3,
+                                            [("rescale-J-and-h", heis_params), ("set-t", setter("t", 0.25)),
+                                             ("assign-h", lambda g: setattr(g, "h", mk_tevo_heis().h)), ("rescale-J-and-h-again", heis_params)])
+    out["ControlledGate(TimeEvolutionGate)"] = (lambda: qib.ControlledGate(mk_tevo_fermi(), 1, [1]), 3,
+                                                [("scale-target-coefficients-in-place", lambda g: scale_coeffs(g.tgate)),
+                                                 ("set-target-t", lambda g: setattr(g.tgate, "t", 0.3))])
+    return out
+
+
+def run_history(ctx, name, seed):
+    import random
+    rng = random.Random(seed)
+    cases = history_cases(rng)
+    build, w, steps = cases[name]
+    desc0 = {"kind": "gate-history", "case": name, "hseed": seed}
+    try:
+        gate = build()
+    except Exception as e:
+        ctx.fail("history:%s:construction-raises:%s" % (name, type(e).__name__), desc0, "a gate", repr(e))
+        return
+    prev = oracle_gate(ctx, "history:" + name, dict(desc0, step="initial"), gate, w)
+    for step, mut in steps:
+        desc = dict(desc0, step=step)
+        snap = net_snapshot(prev) if prev is not None else None
+        try:
+            written = mut(gate)
+        except Exception as e:
+            ctx.fail("history:%s:mutation-raises:%s" % (name, type(e).__name__), desc, "attribute update", repr(e))
+            return
+        cur = oracle_gate(ctx, "history:" + name, desc, gate, w)
+        if prev is not None and snap is not None:
+            aliased = isinstance(written, np.ndarray) and any(np.shares_memory(v, written) for v in prev.data.values()
+                                                                 if isinstance(v, np.ndarray))
+            if not aliased and not net_unchanged(prev, snap):
+                ctx.fail("history:%s:earlier-network-object-changed" % name, desc, "unchanged", "changed")
+        prev = cur
+        ctx.count("gate_history_steps")
+
+
+def history_sweep(ctx):
+    import random
+    names = sorted(history_cases(random.Random(0)))
+    for name in names:
+        for rep in range(3 if ctx.thorough else 1):
+            run_history(ctx, name, ctx.rng.randrange(10 ** 9))
+        ctx.count("gate_histories")
+
+
 # ----------------------------------------------------------------------------- run
 def run(ctx):
     import qib
@@ -202,6 +457,14 @@ def run(ctx):
     else:
         ctx.oblige("props:C06", "theorem", False, "not compiled: translator failed")
     ctx.log("theorems checked")
+    ctx.rules.append("layouts: GeneralGate on 1-3 wires from a non-symmetric monomial / signed permutation stored as " + ", ".join(LAYOUTS)
+                     + "; taken " + ", ".join(DERIVES) + "; network vs as_matrix() and as_matrix() vs the definition. "
+                     "histories: as_tensornet -> change parameters / by-reference operator (in place and by assignment) / particles -> "
+                     "as_tensornet again for every parametrised or composite class, each network vs as_matrix() at that moment, "
+                     "the earlier network object unchanged (unless it aliases the array written in place)")
+    layout_sweep(ctx)
+    history_sweep(ctx)
+    ctx.log("layouts and histories done")
     sweep(ctx)
 
 
@@ -473,6 +736,12 @@ def replay(ctx, data):
             oracle_gate(ctx, "tevo", inp, tev, n)
     elif kind == "general":
         oracle_gate(ctx, "general", inp, qib.GeneralGate(mat_of(inp["mat"]), inp["nwires"]), inp["nwires"])
+    elif kind == "layout":
+        layout_case(ctx, mat_of(inp["mat"]), inp["nwires"], inp["layout"], inp["derive"])
+    elif kind == "gate-history":
+        run_history(ctx, inp["case"], int(inp["hseed"]))
+        ctx.failing[:] = [f for f in ctx.failing if f["sig"] == sig]
+        return
     elif kind == "wrap":
         from qib.tensor_network import TensorNetwork
         shp = tuple(inp["shape"])
